@@ -106,6 +106,27 @@ Theorem C13_layout_independent : forall c l, valid_layout c l -> linked_tree c l
   forall path b, spec_path c path = Some b -> cfb_get_stream fuel (cfb_write c l) path = Ok b.
 Proof. exact layout_independent. Qed.
 
+(* CFB-1 (audit 2): names compare up to case ([MS-CFB] 2.6.4; the reader and this specification fold
+   the ASCII letters: name_eqb = str::eq_ignore_ascii_case, on both sides).  [spec_path], through
+   [child_index], finds the child whose name agrees with the path component up to case, so
+   C13_layout_independent already speaks of containers that store WORKBOOK or BOOK and of paths
+   spelled in any case; the three statements below say so explicitly.  [respell_path flags path]:
+   the ASCII letters at the flagged positions change case. *)
+Theorem C13_respell_same_name : forall flags n, name_equiv n (respell flags n).
+Proof. exact respell_equiv. Qed.
+
+Theorem C13_spec_path_any_case : forall c path path', Forall2 name_equiv path path' ->
+  spec_path c path = spec_path c path'.
+Proof. exact spec_path_any_case. Qed.
+
+(* MAIN (C13, CFB-1): a stream is read back byte for byte under EVERY case spelling of the names of
+   its path, whatever the case of the names the file stores *)
+Theorem C13_layout_independent_any_case : forall c l fuel, valid_layout c l -> linked_tree c l ->
+  (fuel_for l <= fuel)%nat ->
+  forall path b flags, spec_path c path = Some b ->
+    cfb_get_stream fuel (cfb_write c l) (respell_path flags path) = Ok b.
+Proof. exact layout_independent_any_case. Qed.
+
 (* a path that leads to no object is not found, wherever objects of that name sit elsewhere: the
    bare name of a stream that only an embedded object holds, say *)
 Theorem C13_path_not_found : forall c l, valid_layout c l -> linked_tree c l ->
@@ -153,7 +174,7 @@ Proof. exact has_directory_root. Qed.
    entry of the array): Cfb::find scans the flat array for the LAST name of the path, as all
    lookups did before the fix.  The entry reached is the one in the LOWEST directory slot among
    the objects (storages and streams, of any storage) that carry the name *)
-Theorem C13_find_dir_first : forall c l n, valid_layout c l -> n <> [] -> n <> ROOT_NAME ->
+Theorem C13_find_dir_first : forall c l n, valid_layout c l -> n <> [] -> ~ name_equiv n ROOT_NAME ->
   find_dir n (parsed_dirs c l) =
   match first_slot c l n with
   | Some s => Some (entry_at c l s)
@@ -177,19 +198,22 @@ Theorem C13_flat_layout_independent : forall c l fuel, valid_layout c l -> flat_
   forall n b pre, In (n, b) (c_streams c) -> cfb_get_stream fuel (cfb_write c l) (pre ++ [n]) = Ok b.
 Proof. exact flat_layout_independent. Qed.
 
-(* names distinct over the whole file: a container holding both streams (a dual-format file) reads
-   Workbook in every valid layout; one holding only Book reads Book *)
+(* names distinct (up to case) over the whole file: a container holding both streams (a dual-format
+   file) reads Workbook in every valid layout, however the two names are cased in the file
+   (WORKBOOK, workbook, BOOK …: name_equiv); one holding only Book reads Book *)
 Theorem C13_flat_workbook_stream_preferred : forall c l fuel, valid_layout c l -> flat_root c l -> names_unique c ->
   (fuel_for l <= fuel)%nat ->
-  (forall bw, In (WORKBOOK, bw) (c_streams c) -> xls_workbook_stream fuel (cfb_write c l) = Ok bw) /\
-  (forall bb, ~ In WORKBOOK (all_names c) -> In (BOOK, bb) (c_streams c) ->
+  (forall nw bw, name_equiv nw WORKBOOK -> In (nw, bw) (c_streams c) ->
+     xls_workbook_stream fuel (cfb_write c l) = Ok bw) /\
+  (forall nb bb, mem_name WORKBOOK (all_names c) = false -> name_equiv nb BOOK -> In (nb, bb) (c_streams c) ->
      xls_workbook_stream fuel (cfb_write c l) = Ok bb).
 Proof. exact flat_workbook_stream_preferred. Qed.
 
-(* has_directory then answers for every object of the file, whatever storage holds it *)
+(* has_directory then answers for every object of the file, whatever storage holds it, under every
+   case spelling of the name (mem_name: some name of the container agrees with n up to case) *)
 Theorem C13_has_directory_flat : forall c l fuel, valid_layout c l -> flat_root c l -> (fuel_for l <= fuel)%nat ->
   exists cf r, cfb_new fuel (cfb_write c l) = Ok (cf, r) /\ written_cfb c l cf r /\
-    forall n, plain n -> (has_directory cf n = true <-> In n (all_names c)).
+    forall n, plain n -> has_directory cf n = mem_name n (all_names c).
 Proof. exact has_directory_flat. Qed.
 
 (* what Cfb::new returns on a written file *)
@@ -394,6 +418,37 @@ Example C13_workbook_stream_preferred_nonvacuous :
   xls_workbook_stream (fuel_for book_l) (cfb_write book_c book_l) = Ok ex_other.
 Proof. repeat split; vm_compute; reflexivity. Qed.
 
+(* CFB-1: a file whose writer upper-cased the stream names (Apache POI reads WORKBOOK and BOOK for
+   this reason).  A dual-format file with WORKBOOK and BOOK, in a legal MS-CFB tree and with no
+   hierarchy written (flat scan); a BIFF5 file with BOOK only; paths in other case spellings; and
+   the uniqueness rule of 2.6.4: Workbook and WORKBOOK cannot both be children of the root *)
+Definition WORKBOOK_UP : list N := [87; 79; 82; 75; 66; 79; 79; 75].            (* "WORKBOOK" *)
+Definition BOOK_UP : list N := [66; 79; 79; 75].                                (* "BOOK" *)
+Definition upper_c : container :=
+  {| c_ss := 512; c_storages := []; c_streams := [(WORKBOOK_UP, ex_small); (BOOK_UP, ex_other)]; c_parents := [] |}.
+Definition bookup_c : container :=
+  {| c_ss := 512; c_storages := []; c_streams := [(BOOK_UP, ex_other)]; c_parents := [] |}.
+Definition dual_flat_l : layout :=
+  {| l_nsect := 4; l_fat_ids := [0]; l_difat_ids := []; l_dir_ids := [1]; l_minifat_ids := [2];
+     l_root_ids := [3]; l_nmini := 4; l_chains := [[0; 1]; [2; 3]]; l_slots := [2; 1]; l_pad := 0;
+     l_size_hi := 0; l_empty_start := ENDOFCHAIN; l_links := [] |}.
+
+Example C13_case_spellings_nonvacuous :
+  valid_layout upper_c dual_l /\ legal_tree upper_c dual_l /\
+  spec_workbook upper_c = Some ex_small /\ root_storage_named upper_c WORKBOOK = false /\
+  xls_workbook_stream (fuel_for dual_l) (cfb_write upper_c dual_l) = Ok ex_small /\
+  cfb_get_stream (fuel_for dual_l) (cfb_write upper_c dual_l) [[119; 111; 114; 107; 98; 111; 111; 107]] = Ok ex_small /\
+  respell_path [[false; true; true]] [WORKBOOK] = [[87; 79; 82; 107; 98; 111; 111; 107]] /\       (* "WORkbook" *)
+  cfb_get_stream (fuel_for dual_l) (cfb_write upper_c dual_l) (respell_path [[false; true; true]] [BOOK]) = Ok ex_other /\
+  valid_layout upper_c dual_flat_l /\ flat_root upper_c dual_flat_l /\ names_unique upper_c /\
+  xls_workbook_stream (fuel_for dual_flat_l) (cfb_write upper_c dual_flat_l) = Ok ex_small /\
+  valid_layout bookup_c book_l /\ legal_tree bookup_c book_l /\ spec_workbook bookup_c = Some ex_other /\
+  xls_workbook_stream (fuel_for book_l) (cfb_write bookup_c book_l) = Ok ex_other /\
+  name_eqb WORKBOOK_UP WORKBOOK = true /\ name_eqb [196] [228] = false /\                         (* Ä / ä: not folded *)
+  hier_okb {| c_ss := 512; c_storages := [];
+              c_streams := [(WORKBOOK, ex_small); (WORKBOOK_UP, ex_other)]; c_parents := [] |} = false.
+Proof. repeat split; vm_compute; reflexivity. Qed.
+
 (* an embedded workbook: storage MBD0001 holds its own Workbook stream (legal: names are unique
    per storage).  The root's Workbook is read in BOTH orders of the two entries in the directory
    array (root's in slot 2 / embedded in slot 3, and the other way round: the former known class
@@ -489,6 +544,12 @@ Check C13_find_entry_resolve : forall c l, valid_layout c l -> linked_tree c l -
 Check C13_layout_independent : forall c l, valid_layout c l -> linked_tree c l ->
   forall fuel, (fuel_for l <= fuel)%nat ->
   forall path b, spec_path c path = Some b -> cfb_get_stream fuel (cfb_write c l) path = Ok b.
+Check C13_layout_independent_any_case : forall c l fuel, valid_layout c l -> linked_tree c l ->
+  (fuel_for l <= fuel)%nat ->
+  forall path b flags, spec_path c path = Some b ->
+    cfb_get_stream fuel (cfb_write c l) (respell_path flags path) = Ok b.
+Check C13_spec_path_any_case : forall c path path', Forall2 name_equiv path path' ->
+  spec_path c path = spec_path c path'.
 Check C13_same_streams_same_read : forall c1 l1 c2 l2 path b,
   valid_layout c1 l1 -> valid_layout c2 l2 -> linked_tree c1 l1 -> linked_tree c2 l2 ->
   spec_path c1 path = Some b -> spec_path c2 path = Some b ->
@@ -511,6 +572,9 @@ Print Assumptions C13_legal_tree_linked.
 Print Assumptions C13_children_of_object.
 Print Assumptions C13_find_entry_resolve.
 Print Assumptions C13_layout_independent.
+Print Assumptions C13_respell_same_name.
+Print Assumptions C13_spec_path_any_case.
+Print Assumptions C13_layout_independent_any_case.
 Print Assumptions C13_path_not_found.
 Print Assumptions C13_same_streams_same_read.
 Print Assumptions C13_get_stream_path.
@@ -543,6 +607,7 @@ Print Assumptions C13_chain_follow_nonvacuous.
 Print Assumptions C13_chain_cycle_nonvacuous.
 Print Assumptions C13_bom_name_and_empty_start_example.
 Print Assumptions C13_workbook_stream_preferred_nonvacuous.
+Print Assumptions C13_case_spellings_nonvacuous.
 Print Assumptions C13_embedded_workbook_any_slot_order.
 Print Assumptions C13_book_and_embedded_workbook.
 Print Assumptions C13_two_vba_projects_same_depth.
